@@ -145,14 +145,14 @@ func gen(gg *hx.Gen) {
 		}
 	}()
 	// ---- AEAD: every single-bit flip of ct‖tag, nonce, ad, key
-	nflip := g.Count(36, 250)
+	nflip := g.Count(36, 150)
 	for i := 0; i < nflip; i++ {
 		x := r.Intn(2)
 		L := hx.Pick(r, msgLens)
 		if i >= len(msgLens)*2 {
 			L = r.Intn(301)
 		}
-		if g.Thorough() && r.Chance(1, 8) {
+		if g.Thorough() && r.Chance(1, 16) {
 			L = r.Range(301, 1200)
 		}
 		key, nonce, ad, pt := r.Bytes(32), r.Bytes(12+12*x), r.Bytes(r.Intn(24)), r.Bytes(L)
@@ -169,7 +169,7 @@ func gen(gg *hx.Gen) {
 		g.Stat(fmt.Sprintf("aead.flips.x=%d", x))
 	}
 	// ---- AEAD: truncation / extension / multi-byte changes / short inputs / valid
-	nopen := g.Count(1300, 40000)
+	nopen := g.Count(1300, 25000)
 	for i := 0; i < nopen; i++ {
 		x := r.Intn(2)
 		L := r.Intn(400)
